@@ -3757,6 +3757,105 @@ class Canon:
         return vals
 
 
+    def undecorated(self, fn, module, cls):
+        """a method wrapped by a private decorator of the program the tables do not know,
+
+            def _deco(p..):                      @_deco(a..)
+                def decorate(f):                 def m(self, ..): BODY
+                    @wraps(f)
+                    def wrapper(self, ..): W
+                    return wrapper
+                return decorate
+
+        is the wrapper: a function named m with the wrapper's parameters and body W, in which f is m's own body (kept as a nested
+        function, inlined like any other) and the decorator's parameters are its arguments; a function of the class body handed to the
+        decorator and called with the receiver first is the method call.  (the argument-less form `def _deco(f): .. return wrapper` too.)
+        Anything else is left as it is."""
+        if len(fn.decorator_list) != 1:
+            return fn
+        cache = self.__dict__.setdefault("_undeco", {})
+        if id(fn) in cache:
+            return cache[id(fn)]
+        cache[id(fn)] = fn
+        d = fn.decorator_list[0]
+        known = known_defs()
+        head = d.func if isinstance(d, ast.Call) else d
+        if not isinstance(head, ast.Name) or not head.id.startswith("_") or f"fn:{head.id}" in known:
+            return fn
+        fac = module.functions.get(head.id)
+        if fac is None and head.id in module.imports:
+            try:
+                fac = module.resolve(head)
+            except Exception:
+                fac = None
+        if not isinstance(fac, ast.FunctionDef) or fac.decorator_list:
+            return fn
+
+        def closure_of(f_):
+            """(inner def, its parameter list names) when f_ is `def f_(..): def inner(..): ..; return inner`"""
+            b_ = real_body(f_)
+            if len(b_) == 2 and isinstance(b_[0], ast.FunctionDef) and isinstance(b_[1], ast.Return) and isinstance(b_[1].value, ast.Name) and b_[1].value.id == b_[0].name:
+                return b_[0]
+            return None
+        if isinstance(d, ast.Call):
+            dec = closure_of(fac)
+            if dec is None or len(dec.args.args) != 1 or dec.decorator_list:
+                return fn
+            binds = norm.bind_call(fac, d, False)
+            if binds is None:
+                return fn
+            wrapper, fparam = closure_of(dec), dec.args.args[0].arg
+        else:
+            if len(fac.args.args) != 1:
+                return fn
+            binds, wrapper, fparam = {}, closure_of(fac), fac.args.args[0].arg
+        if wrapper is None or any(u(x.func if isinstance(x, ast.Call) else x).split(".")[-1] != "wraps" for x in wrapper.decorator_list):
+            return fn
+        if not wrapper.args.args or _contains(wrapper, (ast.Yield, ast.YieldFrom, ast.Await, ast.Global, ast.Nonlocal)):
+            return fn
+        recv = wrapper.args.args[0].arg
+        inner = copy.deepcopy(fn)
+        inner.decorator_list = []
+        inner_name = f"{fparam}_wrapped_" if fparam == fn.name else fparam        # (not the method's own name: that reads as recursion)
+        inner.name = inner_name
+        if cls is not None:
+            kd = next((k_ for k_ in cls.mro if fn in k_.methods.values()), None)
+            sn = inner.args.args[0].arg if inner.args.args else None
+            if kd is not None and sn is not None:
+                for n in ast.walk(inner):
+                    if isinstance(n, ast.Call) and u(n.func) == "super" and not n.args:
+                        n.args = [ast.Name(id=kd.name, ctx=ast.Load()), ast.Name(id=sn, ctx=ast.Load())]
+        body = [copy.deepcopy(x) for x in real_body(wrapper)]
+        if binds:
+            if norm._assigned_names(body) & set(binds):
+                return fn
+            body = [norm._Subst({k: copy.deepcopy(v) for k, v in binds.items()}).visit(x) for x in body]
+        methods = set()
+        if cls is not None:
+            for k_ in cls.mro:
+                methods |= set(k_.methods)
+
+        class M(ast.NodeTransformer):
+            # g(self, a..) with g a function of the class body: self.g(a..)
+            def visit_Call(self, node):
+                self.generic_visit(node)
+                if isinstance(node.func, ast.Name) and node.func.id in methods and node.func.id != fparam and node.args and isinstance(node.args[0], ast.Name) \
+                        and node.args[0].id == recv and not any(isinstance(a, ast.Starred) for a in node.args[:1]):
+                    return ast.copy_location(ast.Call(func=ast.Attribute(value=ast.Name(id=recv, ctx=ast.Load()), attr=node.func.id, ctx=ast.Load()),
+                                                      args=node.args[1:], keywords=node.keywords), node)
+                return node
+        body = [M().visit(x) for x in body]
+        if inner_name != fparam:
+            if inner_name in {n.id for x in body for n in ast.walk(x) if isinstance(n, ast.Name)}:
+                return fn
+            body = [norm._Rename({fparam: inner_name}).visit(x) for x in body]
+        new = ast.FunctionDef(name=fn.name, args=copy.deepcopy(wrapper.args), body=[inner] + body, decorator_list=[], returns=fn.returns, type_comment=None, type_params=[])
+        ast.copy_location(new, fn)
+        ast.fix_missing_locations(new)
+        self._keepalive.append(new)
+        cache[id(fn)] = new
+        return new
+
     def effects(self):
         if getattr(self, "_effects", None) is None:
             from .effects import Effects
@@ -4195,7 +4294,10 @@ class Canon:
         if key in self.cache and fn.name != "_module_level_":       # (synthetic functions are short-lived: their id can be reused)
             return self.cache[key]
         self._cur_cls = cls
-        b = [copy.deepcopy(s) for s in real_body(fn)]
+        fn_u = self.undecorated(fn, module, cls)
+        b = [copy.deepcopy(s) for s in real_body(fn_u)]
+        if fn_u is not fn:
+            fn = fn_u
         b = strip_annotations(b)
         b = norm.rename_param_rebinds(b)
         b = norm.multimap_idioms(b)
@@ -4349,7 +4451,7 @@ class Canon:
 
     def fn(self, fn, module, cls=None, **kw) -> ast.FunctionDef:
         """a FunctionDef with the canonical body (same name / args)"""
-        f2 = copy.copy(fn)
+        f2 = copy.copy(self.undecorated(fn, module, cls))
         f2.body = self.body(fn, module, cls, **kw) or [ast.Pass()]
         return f2
 
